@@ -34,6 +34,7 @@ type Core struct {
 	HeldSub    bool // GetStateChan blocks until released
 	HeldPoll   bool // IsRunning() blocks until the director supplies the answer
 	ErrOnStop  *RunResult // when set, an unheld Run returns this (a real error) once Stop() was called
+	Unhashable bool       // wrap as a value of a non-comparable type (only for runnables without capabilities)
 
 	mu        sync.Mutex
 	state     string
@@ -56,6 +57,12 @@ type Core struct {
 	ShutdownTrig  chan struct{}
 	CtxDone       atomic.Bool // the context handed to Run was seen cancelled
 	InRun         atomic.Bool
+
+	// a slow String(): when armed, the next call parks until released (legitimate environment behaviour: the
+	// library calls String() of its runnables when it builds a state map or formats a log record)
+	holdString    atomic.Bool
+	StringReached chan struct{}
+	StringRelease chan struct{}
 }
 
 func NewCore(idx int, rec *director.Recorder) *Core {
@@ -65,10 +72,30 @@ func NewCore(idx int, rec *director.Recorder) *Core {
 		RunRelease: make(chan RunResult, 1), StopRelease: make(chan struct{}, 1),
 		ReloadRelease: make(chan struct{}, 8), SubRelease: make(chan struct{}, 8), PollRelease: make(chan bool),
 		ReloadTrig: make(chan struct{}), ShutdownTrig: make(chan struct{}),
+		StringReached: make(chan struct{}, 1), StringRelease: make(chan struct{}, 1),
 	}
 }
 
-func (c *Core) String() string { return fmt.Sprintf("r%d", c.Idx) }
+func (c *Core) String() string {
+	if c.holdString.CompareAndSwap(true, false) {
+		c.StringReached <- struct{}{}
+		<-c.StringRelease
+	}
+	return fmt.Sprintf("r%d", c.Idx)
+}
+
+// SetInitialState sets the state the runnable reports before any Emit (default "New").
+func (c *Core) SetInitialState(s string) {
+	c.mu.Lock()
+	c.state = s
+	c.mu.Unlock()
+}
+
+// HoldNextString arms a one-shot park of the next String() call.
+func (c *Core) HoldNextString() { c.holdString.Store(true) }
+
+// DisarmString disarms an unused hold; it reports whether the hold was still armed.
+func (c *Core) DisarmString() bool { return c.holdString.CompareAndSwap(true, false) }
 
 func (c *Core) Run(ctx context.Context) error {
 	c.Rec.Emit("RunCall %d", c.Idx)
